@@ -113,7 +113,15 @@ type Hist struct {
 	EnqRetSeq []int64
 	Errs      []*jobErr
 
-	CancelSeq          atomic.Int64 // seq right after cancel() returned (0 = never)
+	CancelSeq atomic.Int64 // seq right after cancel() returned (0 = never)
+	// cancellation injected at the hook point "a worker has received a job and
+	// not yet looked at it" (Case.CancelAtGot): the goroutine that executed
+	// the hook and the seq right after cancel() returned on it
+	CancelGotGid       atomic.Int64
+	CancelGotSeq       atomic.Int64
+	cancelAtGot        func()
+	cancelAtGotN       int64
+	gotCount           atomic.Int64
 	WaitSeq0           int64
 	WaitSeq1           int64
 	WaitErr            error
@@ -218,6 +226,16 @@ func Run(c *Case, m Mode) *Hist {
 		cancel()
 		h.CancelSeq.CompareAndSwap(0, seq.Add(1))
 	}
+	if c.CancelAtGot > 0 {
+		h.cancelAtGotN = int64(c.CancelAtGot)
+		h.cancelAtGot = func() {
+			cancel()
+			n := seq.Add(1)
+			h.CancelSeq.CompareAndSwap(0, n)
+			h.CancelGotGid.Store(curGid())
+			h.CancelGotSeq.Store(n)
+		}
+	}
 
 	done := make([]chan struct{}, J)
 	doneOnce := make([]sync.Once, J)
@@ -258,6 +276,9 @@ func Run(c *Case, m Mode) *Hist {
 			st := seq.Add(1)
 			if n == 1 {
 				h.StartSeq[j].Store(st)
+				if c.CancelAtGot > 0 {
+					h.Gid[j].Store(curGid())
+				}
 			}
 			cur := h.inflight.Add(1)
 			for {
@@ -739,4 +760,19 @@ func (d *depSlicesT) get(idx []int, handles []*scheduler.ScheduledJob) []*schedu
 		d.cache[key] = deps
 	}
 	return deps
+}
+
+// curGid returns the id of the calling goroutine (parsed from its stack header).
+func curGid() int64 {
+	var buf [64]byte
+	b := buf[:runtime.Stack(buf[:], false)]
+	b = b[len("goroutine "):]
+	id := int64(0)
+	for _, ch := range b {
+		if ch < '0' || ch > '9' {
+			break
+		}
+		id = id*10 + int64(ch-'0')
+	}
+	return id
 }
